@@ -28,6 +28,8 @@ GEN_FILE = core.LEAN / "QmiModel" / "Gen" / "SyncProgs.lean"
 
 SLEEP_D, RECV_T, LOOP_P = 50.0, 70.0, 30.0
 KINDS = ("sleep", "recvN", "recvT", "mixed", "loop")
+# boundary durations for sleep(): zero, "deadline already passed", tiny; the property does not depend on the duration
+EDGE_DURS = (0, 0.0, -0.25, 1e-9, 0.01)
 
 
 # ---------------------------------------------------------------------------------------------------------
@@ -279,6 +281,7 @@ def run_case(case: dict, guide_schedule=None) -> Obs:
     late, two, npub, seed = bool(case.get("late")), bool(case.get("two")), int(case.get("pub", 0)), int(case.get("seed", 0))
     delay = float(case.get("delay", 0))
     policy = case.get("policy")
+    dur = case.get("dur", SLEEP_D)
     obs = Obs()
     obs.n_stop = 2 if two else 1
     obs.pub = npub
@@ -291,7 +294,7 @@ def run_case(case: dict, guide_schedule=None) -> Obs:
         from qmi.core.task import QMI_LoopTask, QMI_Task
         sched = w.sched
         gate = D.Event() if late else None
-        script = {"sleep": ["sleep"], "recvN": ["recvN"], "recvT": ["recvT"],
+        script = {"sleep": ["sleep"], "paced": ["paced"], "recvN": ["recvN"], "recvT": ["recvT"],
                   "mixed": [["sleep", "recvT", "recvN"], ["recvN", "sleep", "recvT"], ["recvT", "recvN", "sleep"]][seed % 3]}.get(kind)
 
         class Waiter(QMI_Task):
@@ -306,11 +309,26 @@ def run_case(case: dict, guide_schedule=None) -> Obs:
                 box["in_run"] = True
                 try:
                     i = 0
+                    next_time = sched.now
                     while True:
                         what = script[i % len(script)]
                         i += 1
-                        if what == "sleep":
-                            self.sleep(SLEEP_D)
+                        if what in ("sleep", "paced"):
+                            # did this wait start after stop() had fully returned?
+                            after_stop = bool(box.get("stop_returned"))
+                            if what == "paced":
+                                # a paced worker that is behind schedule: 1.5 periods of work (not of waiting) per period
+                                sched.now += 1.5 * LOOP_P
+                                if obs.t_stop is not None:
+                                    obs.work_after_stop += 1.5 * LOOP_P
+                                next_time += LOOP_P
+                                self.sleep(next_time - sched.now)          # always <= 0
+                            else:
+                                self.sleep(dur)
+                            if after_stop:
+                                # a sleep that began after stop() returned normally: the task would go on for ever
+                                obs.released, obs.how = sched.now, "sleep-returned-normally-after-stop"
+                                return
                         elif what == "recvN":
                             self.rx.get_next_signal(None)
                         else:
@@ -401,6 +419,7 @@ def run_case(case: dict, guide_schedule=None) -> Obs:
                 D.TIME_SHIM.sleep(delay)          # virtual time: the task times out of / loops through earlier waits
             obs.t_stop = sched.now
             proxy.stop()
+            box["stop_returned"] = True
             if gate is not None:
                 gate.set()
             proxy.join()
@@ -411,7 +430,7 @@ def run_case(case: dict, guide_schedule=None) -> Obs:
 
     out = run_scenario(f"c11:{seed}", body, policy="pct",
                        change_points=[] if k is None else (list(k) if isinstance(k, (list, tuple)) else [k]),
-                       trace_funcs=_trace_funcs(), max_steps=30000)
+                       trace_funcs=_trace_funcs(), max_steps=8000)      # ordinary runs take 200-700 steps
     obs.deadlock, obs.budget = out.deadlock, out.budget
     obs.error = None if out.error is None else f"{type(out.error).__name__}: {out.error}"[:300]
     obs.thread_errors = [(n, type(e).__name__) for (n, e) in out.thread_errors]
@@ -436,6 +455,8 @@ def oracle(case: dict, obs: Obs) -> Optional[str]:
     if obs.deadlock is not None:
         return "waits-forever"                 # join() never returns: the task (or the stop request) is stuck
     if obs.budget:
+        if obs.t_stop is None:
+            return None        # the strict-priority scheduler starved main before stop() was even called: not about stop
         return "does-not-terminate"
     if obs.error is not None:
         return f"stop-or-join-raised-{obs.error.split(':')[0]}"
@@ -461,7 +482,8 @@ def oracle(case: dict, obs: Obs) -> Optional[str]:
 
 def case_sig(case: dict) -> str:
     return (f"{case['kind']}{'+late' if case.get('late') else ''}{'+2stop' if case.get('two') else ''}"
-            f"{'+delay' if case.get('delay') else ''}{'+' + case['policy'] if case.get('policy') else ''}")
+            f"{'+delay' if case.get('delay') else ''}{'+' + case['policy'] if case.get('policy') else ''}"
+            f"{'+dur=' + repr(case['dur']) if 'dur' in case else ''}")
 
 
 def model_lines(case: dict, obs: Obs) -> list:
@@ -526,6 +548,15 @@ class C11(Prop):
                                   ("loop", 100.0, 0), ("sleep", 60.0, 0), ("recvT", 80.0, 0)):
             for mode in ("task-first", "stop-first"):
                 vs.append(({"kind": kind, "mode": mode, "delay": delay, "seed": sd}, 1 if thorough else 2))
+        # sleep() with boundary durations (zero, negative = deadline already passed, tiny) and a paced loop that is behind
+        # schedule: after stop() has fully returned (gate), and with the stop request swept over the run
+        for d in EDGE_DURS:
+            vs.append(({"kind": "sleep", "mode": "task-first", "late": True, "dur": d, "seed": 0}, 1 if thorough else 2))
+            for mode in ("task-first", "stop-first"):
+                vs.append(({"kind": "sleep", "mode": mode, "dur": d, "seed": 0}, 1 if thorough else 3))
+        vs.append(({"kind": "paced", "mode": "task-first", "late": True, "seed": 0}, 1))
+        for mode in ("task-first", "stop-first"):
+            vs.append(({"kind": "paced", "mode": mode, "seed": 0}, 1 if thorough else 2))
         # slow loop iterations: the missed-period policies of QMI_LoopTask.run (TERMINATE = the task stops itself)
         for pol in ("IMMEDIATE", "SKIP", "TERMINATE"):
             for mode in ("task-first", "stop-first"):
@@ -602,6 +633,9 @@ class C11(Prop):
                 res.count("stop_before_first_park" if flag_pos < park_pos else "stop_after_first_park")
             if not parked:
                 res.count("runs_wait_began_after_stop")
+            if obs.budget and obs.t_stop is None:
+                res.count("runs_starved_before_stop (task spins without blocking; ignored)")
+                continue
             if obs.tap_error:
                 res.broken.append(Broken("correspondence", "C11.taps", obs.tap_error, case=case))
             if clause:
@@ -693,21 +727,34 @@ class C11(Prop):
                 continue
             sched_txt = o.split("schedule=", 1)[1].strip()
             schedule = []
-            for item in sched_txt.split(","):
+            for item in [x for x in sched_txt.split(",") if ":" in x]:
                 tid, lab = item.split(":", 1)
                 schedule.append((int(tid), lab))
             task, nstop, pub, _cap = s.split()
             kinds = {"sleep": ["sleep"], "recvn": ["recvN"], "recvt": ["recvT"], "loop": ["loop"],
                      "any": ["recvN", "recvT", "sleep"]}[task]
             ctx.log(f"model counter-example for system `{s}`: {o[:300]}")
-            for kind in kinds:
-                for mode in ("stop-first", "task-first"):
+            # the model abstracts the duration of sleep(): a counter-example in which the task's sleep performs no operation
+            # on the stop flag (no evcheck / evpark) is a wait that was skipped -> replay it with the boundary durations
+            flag_pos = next((i for i, (t, l) in enumerate(schedule) if l == "setflag"), len(schedule))
+            task_ev_after = [l for (t, l) in schedule[flag_pos:] if t == 0 and l.startswith("ev")]
+            extra = []
+            if "sleep" in kinds:
+                durs = list(EDGE_DURS) if not task_ev_after else []
+                extra = [("sleep", {"dur": d}) for d in durs] + ([("paced", {})] if durs else [])
+            plans = extra + [(k_, {}) for k_ in kinds]
+            for (kind, more) in plans:
+                for mode, late in (("stop-first", False), ("task-first", False), ("task-first", True)):
                     # a publisher is started only if the counter-example needs one (a later signal would rescue the task)
                     needs_pub = any(t == int(nstop) + 1 for (t, _) in schedule)
                     case = {"kind": kind, "mode": mode, "k": None, "two": nstop == "2", "pub": 2 if needs_pub else 0,
-                            "seed": 0, "guide": schedule}
+                            "seed": 0, "guide": schedule, **more}
+                    if late:
+                        case["late"] = True
                     obs = run_case(case, guide_schedule=schedule)
                     self._evaluate(ctx, res, [(case, obs)], follow=False)
+                if res.failures:
+                    break
             if res.failures:
                 break
         if res.failures:
